@@ -292,6 +292,11 @@ class Gen:
             return self.atom(depth)
         if x < 0.6:
             return ('opt', self.seq(depth - 1, self.lead_tok()))
+        if x < 0.8 and x >= 0.6 and self.p('choice') and not self.in_choice_alt and not self.rule_has_choice and rng.random() < 0.2:
+            # a repetition whose whole body is an ordered choice: an iteration that abandons its first
+            # alternative must still consume something or leave the loop
+            self.g.features.add('loop_over_choice')
+            return ('star' if x < 0.72 else 'plus', ('paren', self.choice(depth - 1)))
         if x < 0.72:
             return ('star', self.paren_if(self.seq(depth - 1, self.lead_tok())))
         if x < 0.8:
